@@ -461,9 +461,45 @@ def history_cases(ctx, fresh):
     return out
 
 
+# ------------------------------------------------------------------ dictionary literals with the same keys, one after the other
+# What a dictionary literal's fields are typed as is decided by its own values, not by an earlier literal with the same keys in
+# the same process: {'v': 2}['v'] if c else 3 is accepted and emitted unchanged, {'v': 's'}['v'] if c else 3 is the designed
+# refusal - in either order.  Expected outcomes are known by construction.
+
+RECORD_COMBOS = [("2", "3", True), ("'s'", "3", False), ("'s'", "'t'", True), ("2.5", "'t'", False), ("True", "'t'", False)]
+
+
+def record_order_oracle(ctx, m, only=None):
+    n = 0
+    for i, x in enumerate(RECORD_COMBOS):
+        for j, y in enumerate(RECORD_COMBOS):
+            if x[2] == y[2]:
+                continue
+            for op in ("Select", "Where"):
+                n += 1
+                keys = ("ro%d_%d_%s_k" % (i, j, op[0]), "ro%d_%d_%s_v" % (i, j, op[0]))
+                if only is not None and only != [i, j, op]:
+                    continue
+                for step, (val, other, accepted) in enumerate((x, y)):
+                    body = "{'%s': 1, '%s': %s}['%s'] if e.c else %s" % (keys[0], keys[1], val, keys[1], other)
+                    src = "lambda e: %s" % (body if op == "Select" else "(%s) == e.z" % body)
+                    r = tc.run_impl_str(m, op, m.ev("Any"), src)
+                    ctx.evaluations += 1
+                    good = (r[0] == "ok") if accepted else (r[0] == "refuse")
+                    ctx.count("record_order", "as its own values imply" if good else "NOT as its own values imply")
+                    if not good:
+                        ctx.fail("failing-input", "%s(%s) as query #%d of a process that lowers two dictionary literals with the same keys: %s; "
+                                 "its own values imply %s" % (op, src, step + 1, tc.show(r)[:160],
+                                                              "acceptance, emitted unchanged" if accepted else "the designed refusal (IfExp branches of different types)"),
+                                 {"oracle": "record-order", "pair": [i, j, op]}, key=core.digest({"p": ID, "record-order": [i, j, op]}))
+                        break
+    ctx.notes.append("record-order oracle: %d ordered pairs of dictionary literals with equal keys and differently typed values" % n)
+
+
 def run(ctx):
     m = tc.Model(tc.EMPTY)
     w = m.world_sx()
+    record_order_oracle(ctx, m)
     cs = [normalise(c) for c in cases(ctx)]
     any_sx = m.ty_sx(m.ev("Any"))
     answers = ctx.driver.call("op", [tc.model_requests(w, op, any_sx, ref) for op, ref, s in cs])
@@ -503,6 +539,9 @@ def run(ctx):
 def replay(ctx, wit):
     m = tc.Model(tc.EMPTY)
     w = m.world_sx()
+    if wit.get("oracle") == "record-order":
+        record_order_oracle(ctx, m, only=wit["pair"])
+        return
     if wit.get("form") == "callable":
         run_callables(ctx, m, [(wit["op"], wit["lambda"])], record=False)
         return
